@@ -383,3 +383,73 @@ REG.spec(_OUT + 'work#staged',
       ('earlier-reports-kept', 'forall(lambda k: implies(0 <= k < len(old(adv_log)), adv_log[k] == old(adv_log)[k]))'),
     ],
     serves   = ['C05', 'C11'])
+
+
+# ------------------------------------------------------------------------------
+# agent output stager, the triage loop of Default.work: every task of a bulk is
+# failed, passed on, or staged with exactly its OWN copy / link / move directives
+AODesc = T.Rec('AODesc', output_staging=T.Opt(T.List(SDA)), stage_on_error=T.Opt(T.Bool))
+REG.optional_keys['AODesc'] = {'output_staging', 'stage_on_error'}
+AOTask = T.RecD('AOTask', {'uid': T.Str, 'state': OStr, 'target_state': OStr, 'description': AODesc,
+                           '$all': T.Opt(T.Bool), 'control': OStr, 'exception': OAny, 'exception_detail': OAny})
+REG.optional_keys['AOTask'] = {'state', '$all', 'control', 'exception', 'exception_detail'}
+AOStaged = T.List(T.Tuple(AOTask, T.List(SDA)))
+
+def _ao_stdio(ex, node, st):
+    """self._handle_task_stdio(task): reads the task's stdout / stderr files; may raise"""
+    e = st.fork(); e.guards = []
+    ex.exits.append(('Exception', e, ex.cur_line))
+    return C.NONE
+_ao_stdio.mutates = ()
+
+def _ao_trace(ex, node, st):
+    return Val(T.List(T.Str), z3.Const(C.fresh_name('trace'), T.List(T.Str).sort()))
+_ao_trace.mutates = ()
+
+REG.define('ao_local(a)', 'a == rpc.LINK or a == rpc.COPY or a == rpc.MOVE')
+REG.define('ao_own(t, ds)',
+    'forall(lambda j: implies(0 <= j < len(ds), ao_local(ds[j].action) and t.description.output_staging is not None and '
+    'exists(lambda i: 0 <= i < len(val(t.description.output_staging)) and val(t.description.output_staging)[i] == ds[j]))) and '
+    'implies(t.description.output_staging is not None, forall(lambda i: implies(0 <= i < len(val(t.description.output_staging)) and '
+    'ao_local(val(t.description.output_staging)[i].action), exists(lambda j: 0 <= j < len(ds) and ds[j] == val(t.description.output_staging)[i]))))')
+
+REG.spec('agent/staging_output/default.py:Default.work#triage',
+    fragment = 'for task in ru.as_list(tasks):',
+    # `actionables` is a free variable of the statement: a version that fills it across
+    # iterations (or before the loop) fails the postcondition instead of the shape check
+    params   = dict(tasks=T.List(AOTask), no_staging_tasks=T.List(AOTask), staging_tasks=AOStaged, actionables=T.List(SDA)),
+    ghost    = dict(adv_log=T.List(OAdv)),
+    locals   = dict(uid=T.Str, actionables=T.List(SDA)),
+    calls    = {'ru.as_list': lambda ex, node, st: ex.ev(node.args[0], st), 'self._handle_task_stdio': _ao_stdio,
+                'ru.get_exception_trace': _ao_trace, 'pprint.pformat': lambda ex, node, st: Val(T.Str, z3.Const(C.fresh_name('pp'), C.StrSort))},
+    effects  = {'self.advance': _o_advance},
+    requires = ['len(no_staging_tasks) == 0', 'len(staging_tasks) == 0'],
+    modifies = ['no_staging_tasks', 'staging_tasks', 'adv_log', 'actionables'],
+    raises   = {},
+    no_raise_is_property = True,
+    ensures  = [
+      ('every-task-of-the-bulk-is-failed-passed-on-or-staged-exactly-one',
+       'len(no_staging_tasks) + len(staging_tasks) + (len(adv_log) - len(old(adv_log))) == len(tasks)'),
+      ('a-task-is-staged-with-exactly-its-own-copy-link-move-directives',
+       'forall(lambda m: implies(0 <= m < len(staging_tasks), len(staging_tasks[m][1]) > 0 and ao_own(staging_tasks[m][0], staging_tasks[m][1])))'),
+      ('a-task-that-failed-without-stage-on-error-is-not-staged',
+       'forall(lambda m: implies(0 <= m < len(staging_tasks), staging_tasks[m][0].target_state == DONE or '
+       'bool(staging_tasks[m][0].description.stage_on_error)))'),
+      ('a-task-whose-preparation-raised-is-reported-failed',
+       'forall(lambda k: implies(len(old(adv_log)) <= k < len(adv_log), adv_log[k].state == FAILED))'),
+    ],
+    loops = {'1': ['len(no_staging_tasks) + len(staging_tasks) + (len(adv_log) - len(old(adv_log))) == i_task',
+                   'len(adv_log) >= len(old(adv_log))',
+                   'forall(lambda m: implies(0 <= m < len(staging_tasks), len(staging_tasks[m][1]) > 0 and ao_own(staging_tasks[m][0], staging_tasks[m][1])))',
+                   'forall(lambda m: implies(0 <= m < len(staging_tasks), staging_tasks[m][0].target_state == DONE or '
+                   'bool(staging_tasks[m][0].description.stage_on_error)))',
+                   'forall(lambda k: implies(len(old(adv_log)) <= k < len(adv_log), adv_log[k].state == FAILED))'],
+             '1.1': ['no_staging_tasks == at_head("1", no_staging_tasks)', 'staging_tasks == at_head("1", staging_tasks)',
+                     'adv_log == at_head("1", adv_log)', 'task.description == at_head("1", task).description',
+                     'task.target_state == at_head("1", task).target_state',
+                     'forall(lambda j: implies(0 <= j < len(actionables), ao_local(actionables[j].action) and '
+                     'exists(lambda i: 0 <= i < i_sd and val(task.description.output_staging)[i] == actionables[j])))',
+                     'forall(lambda i: implies(0 <= i < i_sd and ao_local(val(task.description.output_staging)[i].action), '
+                     'exists(lambda j: 0 <= j < len(actionables) and actionables[j] == val(task.description.output_staging)[i])))']},
+    opts     = dict(merge='scalars'),
+    serves   = ['C11', 'C05'])
